@@ -283,6 +283,8 @@ inductive Op where
   | ld (b : Base)            -- load_object("/c08/..")
   | cl (b : Base)            -- clone_object("/c08/..")
   | mv (a d : Nat)           -- a->x_mv(d): move_object(d) executed by a
+  | mvs (a : Nat) (b : Base) -- a->x_mvs("/c08/.."): move_object(string) executed by a (the destination is loaded on demand)
+  | fis (b : Base)           -- first_inventory("/c08/..") (the object is loaded on demand)
   | de (a : Nat)             -- destruct(a)
   | ec (a : Nat)             -- a: enable_commands()
   | dc (a : Nat)             -- a: disable_commands()
@@ -357,7 +359,8 @@ inductive Task where
   | hook (x : Nat) (k : Hook) (arg : Option Nat)           -- apply(create|init|move_or_destruct, x); arg = this_player()/dest
   | load (b : Base)                                        -- find_or_load_object
   | clone (b : Base)                                       -- clone_object
-  | move (item dest : Nat)                                 -- f_move_object + move_object
+  | move (item dest : Nat)                                 -- f_move_object (object argument) + move_object
+  | moveStr (item : Nat) (b : Base)                        -- f_move_object with a string argument
   | fan (item dest : Nat) (cur : Option Nat) (save : Option Nat)  -- the `for (ob = dest->contains; ob; ob = next_ob)` loop; save_cmd
   | command (a : Nat) (verb : String)                      -- process_command(verb, a) + user_parser
   | destruct (ob : Nat)                                    -- destruct_object
@@ -372,6 +375,9 @@ def errDestGone := "*The destination to move to was destructed at call of init()
 def errRestrict := "*Only this_object() can be destructed from move_or_destruct."
 def errBadFile := "*Error in loading object '/c08/bad':"
 def errBoom := "*boom"
+def errFis (b : Base) : String :=
+  "Bad argument 1 to first_inventory(), Expected: string or object Got: \"/" ++ b.str ++ "\"."
+def errNoDest := "move_object failed: could not find destination"
 
 /-- the interpreter; every call decreases the fuel -/
 def exec (sc : Scripts) : Nat → Task → World → R
@@ -401,6 +407,18 @@ def exec (sc : Scripts) : Nat → Task → World → R
             (exec sc f (.move a d) (emit w s!"mvb {oid a} {oid d}")).andThen fun w _ =>
               { w := emit w s!"r mv {oid a} {oid d} ok" }
           | _, _ => { w := emit w s!"r mv {oid a} {oid d} !gone" }
+        | .mvs a b =>
+          match readRef w.c a with
+          | some a =>
+            (exec sc f (.moveStr a b) (emit w s!"mvsb {oid a} {b.str}")).andThen fun w _ =>
+              -- x_mvs returns environment() after the move
+              { w := emit w s!"r mvs {oid a} {b.str} ok {roid w.c self ((w.c.objs a).super.bind (readRef w.c))}" }
+          | none => { w := emit w s!"r mvs {oid a} {b.str} !gone" }
+        | .fis b =>
+          (exec sc f (.load b) w).andThen fun w v =>
+            match v with
+            | none => raise w (errFis b)
+            | some d => { w := emit w s!"r fis {b.str} {roid w.c self ((w.c.objs d).contains.head?.bind (readRef w.c))}" }
         | .de a =>
           match readRef w.c a with
           | some a =>
@@ -549,6 +567,13 @@ def exec (sc : Scripts) : Nat → Task → World → R
                 if (w0.c.objs item).ec ∧ ((w1.c.objs dest).destructed ∨ (w1.c.objs item).super ≠ some dest) then
                   { w := { w1 with cg := saveCg } }
                 else exec sc f (.fan item dest (w1.c.objs dest).contains.head? saveCg) w1
+    | .moveStr item b =>
+      -- f_move_object: the destination is resolved (and loaded: its create() runs) FIRST, then current_object is
+      -- tested for O_DESTRUCTED (the first thing `.move` does), then move_object()
+      (exec sc f (.load b) w).andThen fun w v =>
+        match v with
+        | none => raise w errNoDest
+        | some d => exec sc f (.move item d) w
     | .fan item dest cur saveCg =>
       match cur with
       | none =>
